@@ -91,4 +91,14 @@ class Failures(object):
         return H.observation_key(obs), vs, len(obs['log'])
 
 
-FAMILIES = [Failures()]
+class SeveralPerFile(C07.SeveralPerFile):
+    """C07's worlds of multi-module files over two sources (a broken module next to a sound file mate, a broken and a sound copy of
+    one module in a file, copies travelling in another module's file): a module is either failed - then it is not written, and
+    without ignoreErrors nothing is - or built, written and reported compiled; never both."""
+    prefix = 'C09'
+
+    def select(self, world):
+        return not world.get('opts', {}).get('noDeps')
+
+
+FAMILIES = [Failures(), SeveralPerFile()]
